@@ -875,6 +875,22 @@ def m_checked_mul(ai, fr, st, bb, t, args, key):
 
 
 
+
+def m_checked_sub(ai, fr, st, bb, t, args, key):
+    """a.checked_sub(b) on unsigned integers: Some(a - b) exactly when a >= b."""
+    a, b = args
+    ty = t.args[0].ty
+    if not (isinstance(a, IntV) and isinstance(b, IntV)) or ty.k != "uint":
+        return None
+    d = a.lin.sub(b.lin)
+    lo, hi = st.iv(d)
+    if lo >= 0:
+        return some(IntV(d)), st
+    if hi < 0:
+        return none(), st
+    return EnumV(OPT, {0: (), 1: (IntV(d),)}, {1: (d,), 0: (d.neg().addc(-1),)}), st
+
+
 def m_minmax(is_max):
     def m(ai, fr, st, bb, t, args, key):
         """Integer max / min: a fresh value with r >= a, r >= b (resp. <=) and the interval max(lo), max(hi) (resp. min)."""
@@ -999,7 +1015,7 @@ def first_of(*ms):
     return m
 
 
-HOF_TOTAL = ("std::option::Option::map_or", "std::option::Option::map_or_else", "std::option::Option::ok_or_else",
+HOF_TOTAL = ("std::array::from_fn", "std::option::Option::map_or", "std::option::Option::map_or_else", "std::option::Option::ok_or_else",
              "std::option::Option::and_then", "std::option::Option::or_else", "std::option::Option::filter",
              "std::option::Option::is_some_and", "std::option::Option::is_none_or",
              "std::result::Result::map", "std::result::Result::map_or", "std::result::Result::map_or_else",
@@ -1099,6 +1115,9 @@ def build_models():
     M["core::num::<impl u16>::to_be_bytes"] = m_to_be_bytes
     M["core::num::<impl u8>::wrapping_add"] = m_wrapping_add
     M["core::num::<impl usize>::checked_mul"] = m_checked_mul
+    for ty_ in ("u8", "u16", "u32", "u64", "usize"):
+        M["core::num::<impl %s>::checked_sub" % ty_] = m_checked_sub
+    M["core::num::checked_sub"] = m_checked_sub
     for n_ in ("std::cmp::max", "std::cmp::Ord::max"):
         M[n_] = m_minmax(True)
     for n_ in ("std::cmp::min", "std::cmp::Ord::min"):
